@@ -161,8 +161,9 @@ Fixpoint hist_all_okb (L : ledger) (ops : list op) : bool :=
 Lemma hist_all_okb_spec ops : forall L, hist_all_okb L ops = true -> hist_all_ok L ops.
 Proof.
   induction ops as [|o t IH]; intros L H; [exact I|]. cbn [hist_all_okb] in H.
-  repeat (apply andb_true_iff in H; destruct H as [H ?]). destruct (hist_okb_spec L o H) as (H3 & H4).
-  cbn [hist_all_ok]. repeat split; [assumption|apply bounded_tot; assumption|assumption|apply IH; assumption].
+  apply andb_true_iff in H. destruct H as (H12 & Hrest). apply andb_true_iff in H12. destruct H12 as (Hok & Htot).
+  destruct (hist_okb_spec L o Hok) as (H3 & H4).
+  cbn [hist_all_ok]. split; [assumption|]. split; [apply bounded_tot; assumption|]. split; [assumption|apply IH; assumption].
 Qed.
 
 (* usage_is_sum: the loaded configuration is a valid starting state, and a history with two
